@@ -253,6 +253,14 @@ func (ce *CEnv) withWm(wm Term) *CEnv {
 
 func (f *Frame) havocModifies(m string, fc *FuncContract, pkg *types.Package, lookup func(string) (CVal, bool), st *State) {
 	u := f.u
+	if m == "*" {
+		for _, r := range sortedKeys(u.rsorts) {
+			if !strings.HasPrefix(r, "Gh_") {
+				st.heap[r] = u.sc.fresh("hv_"+sanitize(r), u.rsorts[r])
+			}
+		}
+		return
+	}
 	e, err := parseExpr(m)
 	if err != nil {
 		f.errorf("modifies %q: %v", m, err)
@@ -577,6 +585,9 @@ func isErrorType(t types.Type) bool {
 }
 
 func modifiesRegions(u *Unit, m string, fc *FuncContract, fn *ssa.Function, pkg *types.Package) []string {
+	if m == "*" {
+		return []string{"*"}
+	}
 	e, err := parseExpr(m)
 	if err != nil {
 		return []string{"*"}
